@@ -105,6 +105,11 @@ def oracleTableInt {β : Type} [JCodec β] (key : String) (r : Req) : Int → Py
     | .error _ => .error .other
   | .error _ => .error (oracleErr key r)
 
+/-- stand-in for the chain kernel that ECHOES what it was called with (so that the arguments built by the translated wrapper are
+compared with what the real wrapper passed): `[start, steps] ++ ⌊1024·cummat⌋ (row-major) ++ perm (row-major)` -/
+def oracleEchoCummat (_key : String) (_r : Req) : (List (List Rat) × List (List Int)) → Int → Int → Py (List Int) := fun cm start steps =>
+  .ok ([start, steps] ++ (cm.1.flatten.map (fun x => (x * 1024).floor)) ++ cm.2.flatten)
+
 /-- the same for an oracle of three arguments -/
 def oracleConst3 {α β γ ζ : Type} [JCodec ζ] (key : String) (r : Req) : α → β → γ → Py ζ := fun _ _ _ =>
   match r.oracle.getObjVal? key with
